@@ -160,7 +160,8 @@ pub fn c03_worker(ctx: &mut Ctx) {
         }
         let mut rng = ctx.rng("mixed", i);
         let mut rej = 0;
-        let base = if miri { gen_mixed(&mut rng, 0, &mut rej) } else { gen_mixed(&mut rng, ctx.size(), &mut rej) };
+        // "returns normally" is scale-free: one case in twelve at magnitude 2^-200..2^-40 or 2^40..2^400
+        let base = if miri { gen_mixed(&mut rng, 0, &mut rej) } else { gen_mixed_scaled(&mut rng, ctx.size(), &mut rej) };
         ctx.cnt("generator_rejections_outside_robust_domain", rej);
         let case = if i % 5 == 4 { degenerate_variant(&mut rng, &base, i / 5) } else { base };
         ctx.cnt(&format!("family:{}", case.family), 1);
@@ -1740,6 +1741,22 @@ pub fn c12_worker(ctx: &mut Ctx) {
                     }
                 }
                 Err(f) => ctx.violation(&f.0, &format!("probe {} failed: {}", op.name(), f.1), json!({"kind": "generated", "property": "C12", "label": "probe", "index": op as u64, "seed": ctx.seed, "tier": ctx.tier.name(), "variant": ctx.variant})),
+            }
+            ctx.end();
+        }
+        // shallow exact crossings (family D6, fixed generator streams): compared across build variants AND across worker
+        // processes whose first library call was f32 (odd shards) or f64 (even shards)
+        for k in 0..3u64 {
+            let mut prng = Rng::keyed(20260926, "C12/probe-shallow", k);
+            let c = gen_shallow(&mut prng);
+            let op = OPS[(k as usize + ctx.shard as usize) % 4];
+            ctx.begin("probe-shallow", k, "");
+            ctx.evaluations += 1;
+            if let Ok(r) = run(&c.a, &c.b, op, false) {
+                let mut h = crate::util::Hasher128::default();
+                hash_mp(&mut h, &r);
+                probes.insert(format!("shallow-{}-{}", k, op.name()), json!(format!("{:016x}", h.low())));
+                ctx.cnt("cross_variant_probe_results", 1);
             }
             ctx.end();
         }
